@@ -1,4 +1,6 @@
 //! Shared helpers: argument parsing, NDJSON I/O, the test element type, symbolic hash-term evaluation.
+pub mod chainkit;
+
 use grin_core::core::hash::{DefaultHashable, Hash, ZERO_HASH};
 use grin_core::ser::{self, PMMRIndexHashable, PMMRable, Readable, Reader, Writeable, Writer};
 use serde_json::Value;
